@@ -29,7 +29,7 @@ func init() {
 		},
 		Batch: func(t string) int { return 30 },
 		Floors: []string{"comparisons", "path_verbatim_copy", "path_column_reencode", "path_row", "source_file", "source_buffer", "source_range_view", "source_multi", "source_merged", "source_dedup", "source_foreign_reversed", "source_converted", "source_merged_wrapped", "wrapped_dedup_input", "wrapped_foreign_input", "pending_rows_before_write_rowgroup",
-			"dst_same_config", "dst_other_codec", "dst_other_version", "dst_other_encoding", "dst_small_pages", "dst_maxrows", "dst_bloom", "settings_checked"},
+			"dst_same_config", "dst_other_codec", "dst_other_version", "dst_other_encoding", "dst_small_pages", "dst_maxrows", "dst_bloom", "dst_page_statistics", "dst_index_size_limit", "settings_checked"},
 		Rule: "case = (source row group among: file row group, buffer, row-range view, MultiRowGroup, merged (overlapping or not), dedup wrapper, converted, and a foreign RowGroup implementation whose Rows() reverses the rows; source writer config from the option matrix; " +
 			"destination config equal to the source or with one setting changed: codec, page version, default encoding, page size, MaxRowsPerRowGroup, bloom filters). File A = dst.WriteRowGroup(src); the rows of A (library reader and independent decoder) must equal src.Rows() as read before, " +
 			"and A must honour the destination codec / page version / encoding / bloom filters / row-group size. Hook counters record which path ran. Distinct = descriptor hash",
@@ -90,7 +90,7 @@ func runC11(c *Ctx) {
 	keys := map[string]any{"source": srcKind}
 
 	// ---- destination config
-	dstKind := gen.Pick(r, []string{"same_config", "same_config", "other_codec", "other_version", "other_encoding", "small_pages", "maxrows", "bloom"})
+	dstKind := gen.Pick(r, []string{"same_config", "same_config", "other_codec", "other_version", "other_encoding", "small_pages", "maxrows", "bloom", "page_statistics", "index_size_limit"})
 	dstOpts := append([]parquet.WriterOption{}, srcOpt.Opts...)
 	exp := struct {
 		codec   int
@@ -98,6 +98,9 @@ func runC11(c *Ctx) {
 		maxRows int64
 		bloom   [][]string
 		enc     map[parquet.Kind]encoding.Encoding
+		// statistics settings: page headers carry min/max, column-index values are at most ciLimit bytes
+		pageStats bool
+		ciLimit   int
 	}{codec: codecNum(srcOpt.Codec.String()), version: srcOpt.Version, maxRows: srcOpt.MaxRows, bloom: srcOpt.BloomPaths, enc: map[parquet.Kind]encoding.Encoding{}}
 	switch dstKind {
 	case "other_codec":
@@ -116,6 +119,13 @@ func runC11(c *Ctx) {
 	case "maxrows":
 		exp.maxRows = int64(gen.Pick(r, []int{7, 50, 100}))
 		dstOpts = append(dstOpts, parquet.MaxRowsPerRowGroup(exp.maxRows))
+	case "page_statistics":
+		exp.pageStats = true
+		dstOpts = append(dstOpts, parquet.DataPageStatistics(true))
+	case "index_size_limit":
+		exp.ciLimit = gen.Pick(r, []int{1, 4, 8})
+		lim := exp.ciLimit
+		dstOpts = append(dstOpts, parquet.ColumnIndexSizeLimit(func([]string) int { return lim }))
 	case "bloom":
 		p := gen.Pick(r, leafPaths(schema))
 		exp.bloom = [][]string{p}
@@ -410,6 +420,33 @@ func runC11(c *Ctx) {
 					}
 				}
 			}
+			if exp.pageStats && !pathIn(srcOpt.SkipStats, cd.Leaf.Path) {
+				switch kindOfLeaf(cd.Leaf.Type) {
+				case parquet.Float, parquet.Double, parquet.Int96:
+					// pages holding only NaN have no bounds; Int96 has no order
+				default:
+					for pi, dp := range cd.Data {
+						if dp.NonNull > 0 && !(dp.Info.Stats.HasMinValue && dp.Info.Stats.HasMaxValue) {
+							c.Fail("c11.setting_ignored", map[string]any{"setting": "page_statistics", "path": path, "source": srcKind}, "column %s data page %d has %d non-null values and no min/max in its header although the destination sets DataPageStatistics(true) (%s path)", cd.Leaf.Name(), pi, dp.NonNull, path)
+							return
+						}
+					}
+				}
+			}
+			if exp.ciLimit > 0 && cd.CI != nil && kindOfLeaf(cd.Leaf.Type) == parquet.ByteArray { // 16-byte fixed-length values (uuid) are indexed whole
+				for pi := range cd.CI.MinValues {
+					mn, mx := cd.CI.MinValues[pi], cd.CI.MaxValues[pi]
+					// the upper bound of a value whose first ciLimit bytes are all 0xFF cannot be shortened
+					allFF := len(mx) > exp.ciLimit
+					for _, b := range mx[:min(len(mx), exp.ciLimit)] {
+						allFF = allFF && b == 0xFF
+					}
+					if len(mn) > exp.ciLimit || (len(mx) > exp.ciLimit && !allFF) {
+						c.Fail("c11.setting_ignored", map[string]any{"setting": "index_size_limit", "path": path, "source": srcKind}, "column %s page %d: column-index min/max are %d/%d bytes long, destination ColumnIndexSizeLimit=%d (%s path)", cd.Leaf.Name(), pi, len(mn), len(mx), exp.ciLimit, path)
+						return
+					}
+				}
+			}
 			if e, ok := exp.enc[kindOfLeaf(cd.Leaf.Type)]; ok && !hasTagEncoding(te, ci) {
 				want := int(e.Encoding())
 				for _, p := range cd.Pages {
@@ -424,6 +461,15 @@ func runC11(c *Ctx) {
 }
 
 func kindOfLeaf(t int) parquet.Kind { return parquet.Kind(t) }
+
+func pathIn(paths [][]string, p []string) bool {
+	for _, q := range paths {
+		if strings.Join(q, "\x00") == strings.Join(p, "\x00") {
+			return true
+		}
+	}
+	return false
+}
 
 // struct tags may pin a codec / encoding on a column, which then wins over writer defaults.
 func tagOfLeaf(te *typeEntry, ci int) string {
